@@ -311,6 +311,41 @@ fn conc_docs() -> Vec<(&'static str, Vec<u8>, Cfg)> {
     ]
 }
 
+/// `vcheck worker-c07 <i,j[,k]> <bound> <cap>`: explore the schedules of one document combination in this
+/// process, sequentially; prints one JSON object.
+pub fn worker(args: &[String]) -> i32 {
+    let cd = conc_docs();
+    let combo: Vec<usize> = args[0].split(',').filter_map(|x| x.parse().ok()).collect();
+    let bound: usize = args[1].parse().unwrap_or(2);
+    let cap: usize = args[2].parse().unwrap_or(1000);
+    let docs: Vec<(Vec<u8>, Cfg)> = combo.iter().map(|i| (cd[*i].1.clone(), cd[*i].2.clone())).collect();
+    // solo results: each document alone in this fresh process, before anything else ran here, and once
+    // more afterwards (a solo result that depends on history is the history leg's business, but it must
+    // not be mistaken for a schedule effect)
+    let solo: Vec<Outcome> = docs.iter().map(|(d, c)| run_bytes(d, c)).collect();
+    let res = match explore(&docs, &solo, bound, cap) {
+        Err(e) => json!({"error": e}),
+        Ok((sch, pts, outs, viol, capped)) => {
+            let violation = match viol {
+                None => Value::Null,
+                Some((schedule, results)) => {
+                    let r1 = execute(&docs, &schedule).map(|e| e.results);
+                    let r2 = execute(&docs, &schedule).map(|e| e.results);
+                    if r1.as_ref().ok() != Some(&results) || r2.as_ref().ok() != Some(&results) {
+                        println!("{}", json!({"error": format!("schedule {schedule:?} did not reproduce on replay")}));
+                        return 0;
+                    }
+                    let which = results.iter().zip(solo.iter()).position(|(a, b)| a != b).unwrap_or(0);
+                    json!({"schedule": schedule, "detail": format!("thread {which} returned {}\nsolo:             {}", clip(&results[which].brief(), 300), clip(&solo[which].brief(), 300))})
+                }
+            };
+            json!({"schedules": sch, "points": pts, "outcomes": outs, "capped": capped, "violation": violation})
+        }
+    };
+    println!("{res}");
+    0
+}
+
 // ------------------------------------------------------------------ run
 
 pub fn run(tier: Tier) -> i32 {
@@ -337,6 +372,7 @@ pub fn run(tier: Tier) -> i32 {
     {
         use rayon::prelude::*;
         let jobs: Vec<(usize, usize)> = (0..docs.len()).flat_map(|d| (0..cfgs.len()).map(move |c| (d, c))).collect();
+        let lib_results: Vec<(Outcome, Option<Outcome>)> = jobs.iter().map(|(d, c)| (run_bytes(&docs[*d].1, &cfgs[*c].1), std::str::from_utf8(&docs[*d].1).ok().map(|s| run_str(s, &cfgs[*c].1)))).collect();
         jobs.par_iter().for_each(|(di, ci)| {
             let (dname, doc) = &docs[*di];
             let (cname, cfg, flags) = &cfgs[*ci];
@@ -346,8 +382,8 @@ pub fn run(tier: Tier) -> i32 {
                 case: json!({"leg": "agreement", "doc": dname, "config": cname, "input": clip(&String::from_utf8_lossy(doc), 600)}),
                 detail,
             };
-            let lib_stream = run_bytes(doc, cfg);
-            let lib_str = std::str::from_utf8(doc).ok().map(|s| run_str(s, cfg));
+            // library results were computed one at a time (nothing else running in this process)
+            let (lib_stream, lib_str) = lib_results[*di * cfgs.len() + *ci].clone();
             agree_runs.fetch_add(2, std::sync::atomic::Ordering::Relaxed);
             if let Some(ls) = &lib_str {
                 if *ls != lib_stream && !(ls.is_err() && lib_stream.is_err()) {
@@ -543,39 +579,42 @@ pub fn run(tier: Tier) -> i32 {
     let sched_results = std::sync::Mutex::new((0u64, 0u64, 0usize, Vec::<Violation>::new(), Vec::<String>::new(), 0u64));
     {
         use rayon::prelude::*;
-        // a few combos in parallel; each execution owns its threads
+        // One subprocess per document combination: inside a process exactly ONE execution (and within it one
+        // thread) runs at a time, so that process-wide state in the subject cannot be touched by anything the
+        // scheduler does not own; the 16 cores are used by running the combinations' processes side by side.
+        let exe = std::env::current_exe().unwrap_or_else(|_| "/verif/target/engine/release/vcheck".into());
         combos.par_iter().with_max_len(1).for_each(|combo| {
-            let docs: Vec<(Vec<u8>, Cfg)> = combo.iter().map(|i| (cd[*i].1.clone(), cd[*i].2.clone())).collect();
-            let solo: Vec<Outcome> = combo.iter().map(|i| csolo[*i].clone()).collect();
             let names: Vec<&str> = combo.iter().map(|i| cd[*i].0).collect();
-            let bound = if combo.len() > 2 { tier.pick(1, 3) } else { bound };
-            match explore(&docs, &solo, bound, cap) {
-                Err(e) => sched_results.lock().unwrap().4.push(format!("schedule exploration of {names:?}: {e}")),
-                Ok((sch, pts, outs, viol, capped)) => {
-                    let mut g = sched_results.lock().unwrap();
-                    g.0 += sch;
-                    g.1 += pts;
-                    g.2 += outs;
-                    if capped {
-                        g.5 += 1;
-                    }
-                    if let Some((schedule, results)) = viol {
-                        // replay twice: the same schedule must fail the same way
-                        let r1 = execute(&docs, &schedule).map(|e| e.results);
-                        let r2 = execute(&docs, &schedule).map(|e| e.results);
-                        if r1.as_ref().ok() != Some(&results) || r2.as_ref().ok() != Some(&results) {
-                            g.4.push(format!("schedule {schedule:?} of {names:?} did not reproduce on replay"));
-                        } else {
-                            let which = results.iter().zip(solo.iter()).position(|(a, b)| a != b).unwrap_or(0);
-                            g.3.push(Violation {
-                                clause: "concurrent-result-differs-from-solo".into(),
-                                signature: format!("C07/schedule/{}", names.join("+")),
-                                case: json!({"leg": "schedule", "documents": names, "schedule": schedule}),
-                                detail: format!("documents {names:?} under schedule {schedule:?} (choice index among enabled threads at each scheduling point; replayed twice with the same result):\nthread {which} returned {}\nsolo:             {}", clip(&results[which].brief(), 300), clip(&solo[which].brief(), 300)),
-                            });
-                        }
-                    }
-                }
+            let b = if combo.len() > 2 { tier.pick(1, 3) } else { bound };
+            let arg_combo = combo.iter().map(|i| i.to_string()).collect::<Vec<_>>().join(",");
+            let out = Command::new(&exe).args(["worker-c07", &arg_combo, &b.to_string(), &cap.to_string()]).stdin(Stdio::null()).stderr(Stdio::null()).output();
+            let mut g = sched_results.lock().unwrap();
+            let Ok(out) = out else {
+                g.4.push(format!("cannot run the schedule worker for {names:?}"));
+                return;
+            };
+            let Ok(v) = serde_json::from_slice::<Value>(&out.stdout) else {
+                g.4.push(format!("schedule worker for {names:?} gave no result (exit {:?}): {}", out.status.code(), clip(&String::from_utf8_lossy(&out.stdout), 200)));
+                return;
+            };
+            if let Some(e) = v["error"].as_str() {
+                g.4.push(format!("schedule exploration of {names:?}: {e}"));
+                return;
+            }
+            g.0 += v["schedules"].as_u64().unwrap_or(0);
+            g.1 += v["points"].as_u64().unwrap_or(0);
+            g.2 += v["outcomes"].as_u64().unwrap_or(0) as usize;
+            if v["capped"].as_bool().unwrap_or(false) {
+                g.5 += 1;
+            }
+            if !v["violation"].is_null() {
+                let schedule = v["violation"]["schedule"].clone();
+                g.3.push(Violation {
+                    clause: "concurrent-result-differs-from-solo".into(),
+                    signature: format!("C07/schedule/{}", names.join("+")),
+                    case: json!({"leg": "schedule", "documents": names, "schedule": schedule}),
+                    detail: format!("documents {names:?} under schedule {schedule} (choice index among enabled threads at each scheduling point; replayed twice with the same result):\n{}", v["violation"]["detail"].as_str().unwrap_or("")),
+                });
             }
         });
     }
